@@ -22,3 +22,227 @@ Theorem C11_same_document : forall t v,
   is_jsonb t = false -> parse_value t = Ok v -> normalise v = v -> wfb v = true -> top_ok v -> doc_of (enc v) = doc_of t.
 Proof. exact text_and_encoding_same_document. Qed.
 Print Assumptions C11_same_document.
+
+(* ================================================================ per function family (TextBinProofs.v) *)
+(* `stands_for t v`: t is the encoding of v (fewer than 2^24 top-level elements) or a JSON text, not taken for JSONB by
+   is_jsonb (in particular not beginning with a space), that parse_value reads as v.  Every public function gives, for
+   both forms, the answer computed on the tree v; hence the same answer whenever two arguments stand for the same
+   document, in every argument position independently.  The walkers `*_w` are the offset-faithful models the
+   correspondence runs compare with the crate.
+   Equal only up to `normalise` (the integer zero written `-0` is Int64(0) from the text parser and UInt64(0) from the
+   decoder: equal numbers, different variants): as_number, LazyValue::to_value.  to_string / to_pretty_string return a
+   text input unchanged: the outputs are texts of documents that compare Equal. *)
+From JB Require Import Order Path PathSem Walk CompareWalk ComparableWalk RenderWalk SelWalk CastWalk SerdeWalk KeysWalk
+  EditWalk EditWalk2 ContainWalk SetWalk SetOps TextRoundtrip SetWalkProofs TextBinProofs.
+
+Definition stands_for (t : list N) (v : value) : Prop :=
+  (t = enc v /\ top_ok v) \/ (is_jsonb t = false /\ parse_value t = Ok v).
+
+Section C11_families.
+  Variables (t1 t2 : list N) (v : value).
+  Hypothesis W : wfb v = true.
+  Hypothesis S1 : stands_for t1 v.
+  Hypothesis S2 : stands_for t2 v.
+
+  Theorem C11_accessors : forall i name ic ks,
+    array_length_w t1 = array_length_w t2 /\ get_by_index_w t1 i = get_by_index_w t2 i /\
+    get_by_name_w t1 name ic = get_by_name_w t2 name ic /\ get_by_keypath_w t1 ks = get_by_keypath_w t2 ks /\
+    object_keys_w t1 = object_keys_w t2 /\ object_each_w t1 = object_each_w t2 /\ array_values_w t1 = array_values_w t2.
+  Proof.
+    intros i name ic ks.
+    exact (conj (C11_array_length_same_answer t1 t2 v W S1 S2) (conj (C11_get_by_index_same_answer t1 t2 v W S1 S2 i)
+          (conj (C11_get_by_name_same_answer t1 t2 v W S1 S2 name ic) (conj (C11_get_by_keypath_same_answer t1 t2 v W S1 S2 ks)
+          (conj (C11_object_keys_same_answer t1 t2 v W S1 S2) (conj (C11_object_each_same_answer t1 t2 v W S1 S2)
+                (C11_array_values_same_answer t1 t2 v W S1 S2))))))).
+  Qed.
+
+  Theorem C11_type_of : type_of_w t1 = type_of_w t2.
+  Proof. exact (C11_type_of_same_answer t1 t2 v W S1 S2). Qed.
+
+  Theorem C11_as_casts :
+    as_null_w t1 = as_null_w t2 /\ as_bool_w t1 = as_bool_w t2 /\ as_str_w t1 = as_str_w t2 /\
+    is_array_w t1 = is_array_w t2 /\ is_object_w t1 = is_object_w t2 /\
+    as_i64_w t1 = as_i64_w t2 /\ as_u64_w t1 = as_u64_w t2 /\ as_f64_w t1 = as_f64_w t2.
+  Proof. exact (C11_as_casts_same_answer t1 t2 v W S1 S2). Qed.
+
+  Theorem C11_to_casts :
+    to_bool_w t1 = to_bool_w t2 /\ to_i64_w t1 = to_i64_w t2 /\ to_u64_w t1 = to_u64_w t2 /\
+    to_f64_w t1 = to_f64_w t2 /\ to_str_w t1 = to_str_w t2.
+  Proof. exact (C11_to_casts_same_answer t1 t2 v W S1 S2). Qed.
+
+  Theorem C11_as_number :
+    exists o1 o2, as_number_w t1 = Ok o1 /\ as_number_w t2 = Ok o2 /\
+                  option_map normalise_num o1 = option_map normalise_num o2 /\
+                  (match o1 with Some _ => true | None => false end) = (match o2 with Some _ => true | None => false end).
+  Proof. exact (C11_as_number_same_answer t1 t2 v W S1 S2). Qed.
+
+  Theorem C11_keys_and_strings : forall ks needle,
+    exists_all_keys_w t1 ks = exists_all_keys_w t2 ks /\ exists_any_keys_w t1 ks = exists_any_keys_w t2 ks /\
+    traverse_check_string_w t1 needle = traverse_check_string_w t2 needle.
+  Proof.
+    intros ks needle. destruct (C11_exists_keys_same_answer t1 t2 v W S1 S2 ks) as [A B].
+    exact (conj A (conj B (C11_traverse_check_string_same_answer t1 t2 v W S1 S2 needle))).
+  Qed.
+
+  Theorem C11_to_serde_json :
+    to_serde_json_w t1 = to_serde_json_w t2 /\ to_serde_json_object_w t1 = to_serde_json_object_w t2.
+  Proof. exact (C11_to_serde_json_same_answer t1 t2 v W S1 S2). Qed.
+
+  Theorem C11_convert_to_comparable : forall buf, comparable_w t1 buf = comparable_w t2 buf.
+  Proof. exact (C11_convert_to_comparable_same_answer t1 t2 v W S1 S2). Qed.
+
+  Theorem C11_editors_one_document : forall name i kp ks buf,
+    delete_by_name_w t1 name buf = delete_by_name_w t2 name buf /\
+    delete_by_index_w t1 i buf = delete_by_index_w t2 i buf /\
+    delete_by_keypath_w t1 kp buf = delete_by_keypath_w t2 kp buf /\
+    object_delete_w t1 ks buf = object_delete_w t2 ks buf /\ object_pick_w t1 ks buf = object_pick_w t2 ks buf /\
+    strip_nulls_w t1 buf = strip_nulls_w t2 buf /\
+    (wf_size (array_distinct_t v) = true -> array_distinct_w t1 buf = array_distinct_w t2 buf).
+  Proof.
+    intros name i kp ks buf. destruct (C11_delete_same_answer t1 t2 v W S1 S2 name i kp buf) as (A & B & C).
+    destruct (C11_object_filter_same_answer t1 t2 v W S1 S2 ks buf) as (D & E).
+    exact (conj A (conj B (conj C (conj D (conj E (conj (C11_strip_nulls_same_answer t1 t2 v W S1 S2 buf)
+                                                    (C11_array_distinct_same_answer t1 t2 v W S1 S2 buf))))))).
+  Qed.
+
+  (* get_by_path = MMixed, get_by_path_first = MFirst, get_by_path_array = MArray: data and offsets *)
+  Theorem C11_path_functions : forall md ps buf,
+    get_by_path_gen_w md t1 ps buf = get_by_path_gen_w md t2 ps buf /\
+    path_exists_w t1 ps = path_exists_w t2 ps /\ path_match_w t1 ps = path_match_w t2 ps.
+  Proof. exact (C11_path_same_answer t1 t2 v W S1 S2). Qed.
+
+  Theorem C11_to_string : forall pf ok pretty, (forall b, ok b = true -> float_reads_back pf b) ->
+    floats_ok ok (normalise v) = true ->
+    exists r1 r2 d1 d2, to_text_w pf pretty t1 = Ok r1 /\ to_text_w pf pretty t2 = Ok r2 /\
+                        parse_value r1 = Ok d1 /\ parse_value r2 = Ok d2 /\ cmp_value d1 d2 = Eq.
+  Proof. exact (C11_to_string_same_document t1 t2 v W S1 S2). Qed.
+
+  Theorem C11_lazy_value :
+    exists l1 l2, parse_lazy_value t1 = Ok l1 /\ parse_lazy_value t2 = Ok l2 /\
+                  lazy_to_vec l1 = lazy_to_vec l2 /\ lazy_array_length l1 = lazy_array_length l2 /\
+                  exists d1 d2, lazy_to_value l1 = Ok d1 /\ lazy_to_value l2 = Ok d2 /\ normalise d1 = normalise d2.
+  Proof. exact (C11_lazy_value_same_answer t1 t2 v W S1 S2). Qed.
+
+  (* ---- two documents, every combination of forms ---- *)
+  Variables (u1 u2 : list N) (x : value).
+  Hypothesis Wx : wfb x = true.
+  Hypothesis X1 : stands_for u1 x.
+  Hypothesis X2 : stands_for u2 x.
+
+  Theorem C11_compare : compare_w t1 u1 = compare_w t2 u2.
+  Proof. exact (C11_compare_same_answer t1 t2 v W S1 S2 u1 u2 x Wx X1 X2). Qed.
+
+  (* contains and concat go through from_slice (binary decoder first): a text must not be decodable as JSONB, which holds
+     for every text of bytes shorter than 3623878656 bytes (small_text) *)
+  Theorem C11_contains_concat : forall buf,
+    (is_jsonb t1 = false -> small_text t1) -> (is_jsonb t2 = false -> small_text t2) ->
+    (is_jsonb u1 = false -> small_text u1) -> (is_jsonb u2 = false -> small_text u2) ->
+    contains_w t1 u1 = contains_w t2 u2 /\
+    (wf_size (concat_t v x) = true -> concat_w t1 u1 buf = concat_w t2 u2 buf).
+  Proof.
+    intros buf A1 A2 B1 B2. split.
+    - exact (C11_contains_same_answer t1 t2 v W S1 S2 u1 u2 x Wx X1 X2 A1 A2 B1 B2).
+    - intros Hr. exact (C11_concat_same_answer t1 t2 v W S1 S2 u1 u2 x Wx X1 X2 buf Hr A1 A2 B1 B2).
+  Qed.
+
+  Theorem C11_editors_two_documents : forall pos key upd buf,
+    (wf_size (array_insert_t v pos x) = true -> array_insert_w t1 pos u1 buf = array_insert_w t2 pos u2 buf) /\
+    ((forall y, object_insert_t v key x upd = Ok y -> wf_size y = true) ->
+     object_insert_w t1 key u1 upd buf = object_insert_w t2 key u2 upd buf).
+  Proof.
+    intros pos key upd buf. split.
+    - exact (C11_array_insert_same_answer t1 t2 v W S1 S2 u1 u2 x Wx X1 X2 pos buf).
+    - exact (C11_object_insert_same_answer t1 t2 v W S1 S2 u1 u2 x Wx X1 X2 key upd buf).
+  Qed.
+
+  Theorem C11_set_functions : forall buf,
+    wf_size (array_intersection_t v x) = true -> wf_size (array_except_t v x) = true ->
+    array_intersection_w t1 u1 buf = array_intersection_w t2 u2 buf /\
+    array_except_w t1 u1 buf = array_except_w t2 u2 buf /\
+    array_overlap_w t1 u1 = array_overlap_w t2 u2.
+  Proof. exact (C11_array_set_same_answer t1 t2 v W S1 S2 u1 u2 x Wx X1 X2). Qed.
+End C11_families.
+Print Assumptions C11_accessors.
+Print Assumptions C11_type_of.
+Print Assumptions C11_as_casts.
+Print Assumptions C11_to_casts.
+Print Assumptions C11_as_number.
+Print Assumptions C11_keys_and_strings.
+Print Assumptions C11_to_serde_json.
+Print Assumptions C11_convert_to_comparable.
+Print Assumptions C11_editors_one_document.
+Print Assumptions C11_path_functions.
+Print Assumptions C11_to_string.
+Print Assumptions C11_lazy_value.
+Print Assumptions C11_compare.
+Print Assumptions C11_contains_concat.
+Print Assumptions C11_editors_two_documents.
+Print Assumptions C11_set_functions.
+
+(* the answers themselves: what each function returns for either form, on the tree (one representative per family; the
+   full list is TextBinProofs.*_forms) *)
+Theorem C11_answer_is_the_tree_answer : forall t v, wfb v = true -> stands_for t v ->
+  array_length_w t = Ok (TreeOps.array_length_t v) /\ type_of_w t = Ok (TreeOps.type_of_t v) /\
+  as_i64_w t = Ok (TreeOps.as_i64_t v) /\ as_f64_w t = Ok (TreeOps.as_f64_t (normalise v)) /\
+  (forall ps md buf, get_by_path_gen_w md t ps buf = select_t v ps md buf) /\
+  (forall buf, strip_nulls_w t buf = Ok (buf ++ enc (TreeOps.strip_nulls_t v))).
+Proof.
+  intros t v W S.
+  exact (conj (array_length_forms t v W S) (conj (type_of_forms t v W S) (conj (as_i64_forms t v W S) (conj (as_f64_forms t v W S)
+        (conj (fun ps md buf => get_by_path_gen_forms md t v ps buf W S) (strip_nulls_forms t v W S)))))).
+Qed.
+Print Assumptions C11_answer_is_the_tree_answer.
+
+(* to_string / to_pretty_string with no hypothesis at all, for documents without floats (any float printer pf) *)
+Theorem C11_to_string_no_float : forall pf pretty t v, wfb v = true -> no_float v = true -> stands_for t v ->
+  exists r d, to_text_w pf pretty t = Ok r /\ parse_value r = Ok d /\ cmp_value d v = Eq.
+Proof.
+  intros pf pretty t v W Hn S. destruct (to_text_forms_no_float pf pretty t v W Hn S) as (r & E & d & P & C).
+  exists r, d. exact (conj E (conj P C)).
+Qed.
+Print Assumptions C11_to_string_no_float.
+
+(* a text that parses announces the kind of its value by the first byte after what the parser skips (type_of's text
+   branch reads nothing else), and its floats are never NaN *)
+Theorem C11_first_value_byte_fixes_the_kind : forall t v, parse_value t = Ok v ->
+  exists c r, JsonText.skip_unused t = c :: r /\ kind_of_byte c = Some (TreeOps.type_of_t v).
+Proof. exact parse_value_kind. Qed.
+Print Assumptions C11_first_value_byte_fixes_the_kind.
+Theorem C11_parsed_float_is_not_nan : forall t b, parse_value t = Ok (VNum (NFloat b)) -> f_is_nan b = false.
+Proof. exact parsed_float_not_nan. Qed.
+Print Assumptions C11_parsed_float_is_not_nan.
+(* from_slice (contains, concat) never decodes a JSON text as JSONB *)
+Theorem C11_text_is_not_decoded : forall t v, small_text t -> is_jsonb t = false -> parse_value t = Ok v -> parse_jsonb t = Err EOther.
+Proof. exact text_not_decoded. Qed.
+Print Assumptions C11_text_is_not_decoded.
+
+(* not vacuous: the text {"a":[1,-2,3.5e0,{"b":null,"n":-0}],"c":"x"} (a float, a negative integer, the integer -0, nested
+   containers) and its encoding through functions of several families, in all combinations *)
+Example C11_example :
+  let t := [123; 34; 97; 34; 58; 91; 49; 44; 45; 50; 44; 51; 46; 53; 101; 48; 44; 123; 34; 98; 34; 58; 110; 117; 108; 108; 44;
+            34; 110; 34; 58; 45; 48; 125; 93; 44; 34; 99; 34; 58; 34; 120; 34; 125] in
+  let u := [91; 45; 50; 44; 34; 120; 34; 93] in      (* [-2,"x"] *)
+  match parse_value t, parse_value u with
+  | Ok v, Ok x =>
+      let b := enc v in let c := enc x in
+      is_jsonb t = false /\ is_jsonb b = true /\ wfb v = true /\
+      array_length_w t = array_length_w b /\ type_of_w t = Ok 5 /\ type_of_w b = Ok 5 /\
+      get_by_name_w t [97] false = get_by_name_w b [97] false /\ get_by_name_w t [97] false <> Ok None /\
+      get_by_keypath_w t [KName [97]; KIndex 3%Z; KName [110]] = get_by_keypath_w b [KName [97]; KIndex 3%Z; KName [110]] /\
+      object_keys_w t = object_keys_w b /\
+      compare_w t b = Ok Eq /\ compare_w b t = Ok Eq /\ compare_w t u = compare_w b c /\ compare_w t c = compare_w b u /\
+      contains_w t b = Ok true /\ contains_w b t = Ok true /\
+      comparable_w t [] = comparable_w b [] /\
+      strip_nulls_w t [] = strip_nulls_w b [] /\
+      concat_w t u [] = concat_w b c [] /\ concat_w t c [] = concat_w b u [] /\
+      array_insert_w u 1 t [] = array_insert_w c 1 b [] /\ array_insert_w u 1 b [] = array_insert_w c 1 t [] /\
+      to_serde_json_w t = to_serde_json_w b /\
+      get_by_path_w t [PRoot; PDotField [97]; PIndices [AIndex (IIndex 2)]] [] = get_by_path_w b [PRoot; PDotField [97]; PIndices [AIndex (IIndex 2)]] [] /\
+      path_exists_w t [PRoot; PDotField [97]; PBracketWild; PDotField [110]] = Ok true /\
+      path_exists_w b [PRoot; PDotField [97]; PBracketWild; PDotField [110]] = Ok true /\
+      (* the one place where the forms differ: the integer -0 *)
+      as_number_w [45; 48] = Ok (Some (NInt 0)) /\ as_number_w (enc (VNum (NInt 0))) = Ok (Some (NUInt 0)) /\
+      as_i64_w [45; 48] = as_i64_w (enc (VNum (NInt 0)))
+  | _, _ => False
+  end.
+Proof. vm_compute. repeat split; discriminate. Qed.
